@@ -182,7 +182,7 @@ def run(ctx, chk):
             ok = bool(os_) and all(o["status"] == ("c", DS["CBOR_DECODER_ERROR"]) and o["read"] == ("c", 0) and o["required"] == ("c", 0)
                                    and not o["callbacks"] for o in os_)
             chk.ob("C05.reserved", "byte 0x%02X" % b, ok, "src/cbor/streaming.c", fn="cbor_stream_decode", key="res:%02X" % b)
-    chk.floor("C05.reserved", "reserved bytes", nres, 40)
+    chk.floor("C05.reserved", "reserved bytes", nres, 30)
 
     # builders: no silent drop
     g = prog.global_for(f, "cbor_load.callbacks")
@@ -225,7 +225,7 @@ def run(ctx, chk):
             nb += 1
             chk.ob("C05.no-silent-drop", "%s path %d" % (bn, k), ok, bwhere, fn=bn, key="%s:%d" % (bn, k),
                    detail="" if ok else "the item is neither handed off nor is an error flag raised", path=pa.block_lines() if not ok else None)
-    chk.floor("C05.no-silent-drop", "builder paths", nb, 80)
+    chk.floor("C05.no-silent-drop", "builder paths", nb, 50)
     # truncation is reported as NEDATA, without wrapping
     n_ = DR.per_byte(chk, "C05", prog, eff, {"nedata", "nedata-wrap", "claim"}, by_byte=by_byte)
     chk.floor("C05.nedata", "per-byte truncation obligations", n_, 300)
